@@ -624,7 +624,23 @@ func (pe *PathEnum) expr(e ast.Expr, st *pstate) *Term {
 		l, r := pe.expr(x.X, st), pe.expr(x.Y, st)
 		switch x.Op {
 		case token.EQL, token.NEQ, token.LSS, token.GTR, token.LEQ, token.GEQ:
-			return &Term{Op: "cmp", Name: x.Op.String(), Args: []*Term{l, r}, Node: e}
+			// one orientation per comparison: constants (and nil) last; otherwise a length last —
+			// `0 == x` ≡ `x == 0`, `len(s) <= p` ≡ `p >= len(s)`
+			op := x.Op
+			rank := func(t *Term) int {
+				switch {
+				case t.Op == "const" || (t.Op == "leaf" && t.Name == "nil"):
+					return 2
+				case t.Op == "len":
+					return 1
+				}
+				return 0
+			}
+			if rank(l) > rank(r) {
+				l, r = r, l
+				op = flipCmp[op]
+			}
+			return &Term{Op: "cmp", Name: op.String(), Args: []*Term{l, r}, Node: e}
 		case token.LAND, token.LOR:
 			return &Term{Op: "arith", Name: x.Op.String(), Args: []*Term{l, r}, Node: e}
 		}
